@@ -44,6 +44,17 @@ def main():
   from crosshair.options import (  # pylint: disable=g-import-not-at-top
       AnalysisKind, AnalysisOptionSet)
 
+  if "re" in os.environ.get("VERIF_UNPATCH", "").split(","):
+    # Jobs whose strings are concrete run CPython's own `re` instead of
+    # CrossHair's symbolic regex model (which is unfaithful for some
+    # constructs, e.g. look-behind).
+    import re  # pylint: disable=g-import-not-at-top
+    import crosshair.core  # pylint: disable=g-import-not-at-top
+    regs = crosshair.core._PATCH_REGISTRATIONS  # pylint: disable=protected-access
+    for k in list(regs):
+      if k is re._compile or getattr(k, "__objclass__", None) is re.Pattern:  # pylint: disable=protected-access
+        del regs[k]
+
   t0 = time.time()
   out = {"module": mod_name, "fn": fn_name, "messages": []}
   try:
